@@ -19,6 +19,7 @@ CONSTANTS
  Goals = {2}
  Origins = {o}
  AdvKinds = {"create"}
+ NodeRank <- RankDef
  AdvSrcs = {adv}
  TrackWire = FALSE
  UseIds = FALSE
